@@ -222,8 +222,10 @@ def check_shared(ctx, m):
             changed = False
             for n in walk_no_nested(fn):
                 tg, val = None, None
-                if isinstance(n, ast.For) and isinstance(n.target, ast.Name) and isinstance(n.iter, ast.Name) and n.iter.id in TAG_STACKS and \
-                        n.target.id not in ls:
+                if isinstance(n, ast.For) and isinstance(n.target, ast.Name) and n.target.id not in ls and \
+                        ((isinstance(n.iter, ast.Name) and n.iter.id in TAG_STACKS) or
+                         # the level taken straight off the stack of levels: `for ts in self.all_tagss.pop():` / `in self.all_tagss[-1]:`
+                         any(isinstance(y, ast.Attribute) and y.attr.endswith('tagss') for y in ast.walk(n.iter))):
                     ls.add(n.target.id)      # iterating a tag stack hands out the dicts the children pushed
                     changed = True
                 if isinstance(n, ast.Assign):
